@@ -156,9 +156,13 @@ impl<R: Read + Send> Iterator for ChunkIter<R> {
             return if vec.is_empty() { None } else { Some(Ok(vec)) };
         }
 
-        _ = self
-            .rabin
-            .reset_and_prefill_window(&mut vec[vec.len() - 64..vec.len()].iter().copied());
+        // `reset_and_prefill_window` only takes `window size - 1` bytes: slide in the last one,
+        // so that the first cut decision is made on the fingerprint of the complete window.
+        let mut window = vec[vec.len() - 64..vec.len()].iter().copied();
+        _ = self.rabin.reset_and_prefill_window(&mut window);
+        for byte in window {
+            self.rabin.slide(byte);
+        }
 
         loop {
             if vec.len() >= self.max_size {
